@@ -214,7 +214,9 @@ func Solve(file string, timeoutS int, all bool, cover bool) *SolveResult {
 		}
 		if best == nil && a.status == "unknown" {
 			if cover && !all {
-				cancel()
+				// a cover only looks for "unsat" (vacuous); the first "unknown" is not yet an answer, so the other
+				// back ends get a short time to refute the cover before it is left undecided
+				go func() { time.Sleep(1 * time.Second); cancel() }()
 			} else if cover {
 				go func() { time.Sleep(5 * time.Second); cancel() }()
 			}
